@@ -154,6 +154,17 @@ func (s *JavaRefactorListener) EnterStatement(ctx *StatementContext) {
 	}
 }
 
+// a plain identifier used in an expression (e.g. a statically imported constant) is a reference too
+func (s *JavaRefactorListener) EnterPrimary(ctx *PrimaryContext) {
+	if ctx.Identifier() == nil {
+		return
+	}
+	startLine := ctx.GetStart().GetLine()
+	stopLine := ctx.GetStop().GetLine()
+	field := model.JField{Name: ctx.Identifier().GetText(), Source: node.Pkg, StartLine: startLine, StopLine: stopLine}
+	node.AddField(field)
+}
+
 func (s *JavaRefactorListener) EnterCreatedName(ctx *CreatedNameContext) {
 	identifiers := ctx.AllIdentifier()
 	for index := range identifiers {
